@@ -123,6 +123,31 @@ def enum_bool(ctx: Ctx, h: Harness):
         ctx.decide(bad is None, "R8.enum", site, "", bad or "", where=where(fe, fe.node))
     except Unsupported as e:
         ctx.unknown("R8.enum", site, str(e))
+    # an enumeration as declared in a document: every listed value - negative, zero, and integers a double cannot hold - maps
+    site = f"{PT}::EnumeratedParameterType.from_xml::declared values"
+    try:
+        from ..xmlmodel import make_elem
+        from . import xmlcommon as X
+        hx = X.harness(ctx.prog)
+        X.set_ns_state(hx, None, {})
+        listed = {9007199254740993: "BIG_ODD", 9007199254740992: "BIG_EVEN", 0: "ZERO", 18446744073709551615: "ALL_ONES", 7: "SEVEN"}
+        el = make_elem("EnumeratedParameterType", {"name": "E"}, children=[
+            make_elem("IntegerDataEncoding", {"sizeInBits": "64", "encoding": "unsigned"}),
+            make_elem("EnumerationList", children=[make_elem("Enumeration", {"value": str(v), "label": lab}) for v, lab in listed.items()])])
+        t = hx.ev("parameter_types.EnumeratedParameterType.from_xml(el)", "xtce/definitions.py", el=el)
+        bad = None
+        for rv, want in list(listed.items()) + [(9007199254740994, None)]:
+            kind, got = hx.outcome("t.parse_value(pkt)", "xtce/definitions.py", t=t, pkt=hx.packet(rv.to_bytes(8, "big"), {}))
+            if want is None:
+                if not (kind == "raise" and got == "ValueError"):
+                    bad = f"unlisted raw value {rv}: {kind} {got!r}; must fail with ValueError"
+            elif not (kind == "ok" and got == want and got.attrs.get("raw_value") == rv):
+                bad = f"declared <Enumeration value=\"{rv}\" label=\"{want}\">: raw {rv} gives {kind} {got!r}; expected the label {want!r}"
+            if bad:
+                break
+        ctx.decide(bad is None, "R8.enum", site, "", bad or "", where=where(fe, fe.node))
+    except (Unsupported, Raised) as e:
+        ctx.unknown("R8.enum", site, str(e))
     fb = ctx.prog.func(f"{PT}::BooleanParameterType.parse_value")
     site = f"{fb.key}::truthiness-of-raw"
     try:
